@@ -163,13 +163,13 @@ def run(ctx):
     th = theorems()
     if th:
         ctx.proof_stage('Props.C07', th)
-    n_gen = 1500 if quick else 40000
-    n_tree = 3000 if quick else 80000
+    n_gen = 1500 if quick else 12000
+    n_tree = 3000 if quick else 20000
     cases = [gen_case(rng, 'g%d' % i) for i in range(n_gen)]
     trees = []
     expected = {}
     for i in range(n_tree):
-        c, exp = gen_tree_case(rng, 't%d' % i, 6 if quick else 10)
+        c, exp = gen_tree_case(rng, 't%d' % i, 6 if quick else 8)
         trees.append(c)
         expected[c[0]] = exp
     for k, (src, defs, exp) in KNOWN_WITNESSES.items():
